@@ -491,7 +491,7 @@ pub fn run(args: &Args) -> i32 {
             ("events".into(), args.tier.pick(3_000, 60_000)),
             ("evictions_observed".into(), args.tier.pick(150, 2_000)),
             ("sessions_closed_on_shutdown".into(), args.tier.pick(150, 2_000)),
-            ("accept_failure_scenarios".into(), args.tier.pick(4, 40)),
+            ("accept_failure_scenarios".into(), args.tier.pick(6, 42)),
         ],
         min_classes: 10,
     };
